@@ -15,37 +15,9 @@ import (
 	"github.com/go-openapi/runtime"
 
 	"verif/engine/choice"
-	"verif/engine/doubles"
 )
 
 var errClosed = errors.New("harness: stream used after Close")
-
-// rcloser is the scripted reader as a real closable stream: once closed, reads fail.
-type rcloser struct{ r *doubles.Reader }
-
-func (x *rcloser) Read(p []byte) (int, error) {
-	if x.r.Closes > 0 {
-		x.r.ReadAfterClose++
-		return 0, errClosed
-	}
-	return x.r.Read(p)
-}
-func (x *rcloser) Close() error { return x.r.Close() }
-
-// wcloser is the scripted writer as a real closable stream: once closed, writes fail.
-type wcloser struct {
-	w          *doubles.Writer
-	afterClose int
-}
-
-func (x *wcloser) Write(p []byte) (int, error) {
-	if x.w.Closes > 0 {
-		x.afterClose++
-		return 0, errClosed
-	}
-	return x.w.Write(p)
-}
-func (x *wcloser) Close() error { return x.w.Close() }
 
 // ---- destination and source types owned by the harness ----
 
@@ -147,8 +119,8 @@ const (
 type dst struct {
 	data any
 	get  func() []byte
-	w    *doubles.Writer // destination is a scripted writer
-	old  []byte          // pre-populated content (nil: fresh)
+	w    *swriter // destination is a scripted writer
+	old  []byte   // pre-populated content (nil: fresh)
 }
 
 type dkind struct {
@@ -202,8 +174,8 @@ var bsConsumeKinds = []dkind{
 		return dst{data: d, get: func() []byte { return d.buf.Bytes() }}
 	}},
 	{"io.Writer", supIface, func(ch *choice.Chooser) dst {
-		w := &doubles.Writer{Name: "dst", C: ch, Faults: true}
-		return dst{data: doubles.PlainWriter{W: w}, get: func() []byte { return w.Buf }, w: w}
+		w := &swriter{Name: "dst", C: ch, Errs: 2}
+		return dst{data: plainW{w}, get: func() []byte { return w.Buf }, w: w}
 	}},
 	{"*bytes.Buffer", supIface, func(*choice.Chooser) dst {
 		b := new(bytes.Buffer)
@@ -307,11 +279,11 @@ var textConsumeKinds = []dkind{
 
 type src struct {
 	data    any
-	expect  []byte          // exact bytes that must be written (supConcrete / supIface)
-	jsonOf  any             // supJSON: the written JSON must decode to this value
-	payload *doubles.Reader // source is a scripted reader
-	closes  func() int      // closable source payload: close counter
-	intact  func() bool     // the source bytes were not modified
+	expect  []byte      // exact bytes that must be written (supConcrete / supIface)
+	jsonOf  any         // supJSON: the written JSON must decode to this value
+	payload *sreader    // source is a scripted reader
+	closes  func() int  // closable source payload: close counter
+	intact  func() bool // the source bytes were not modified
 }
 
 type skind struct {
@@ -365,12 +337,12 @@ var bsProduceKinds = append([]skind{
 		return src{data: s, expect: content, closes: func() int { return s.closes }}
 	}},
 	{"io.ReadCloser", supIface, func(ch *choice.Chooser, content []byte, zero int) src {
-		rd := &doubles.Reader{Name: "payload", Data: content, C: ch, Faults: true, ZeroReads: zero}
-		return src{data: &rcloser{rd}, expect: content, payload: rd, closes: func() int { return rd.Closes }}
+		rd := &sreader{Name: "payload", Data: content, C: ch, Errs: 2, Zero: zero, CloseFaults: true}
+		return src{data: rd, expect: content, payload: rd, closes: func() int { return rd.Closes }}
 	}},
 	{"io.Reader", supIface, func(ch *choice.Chooser, content []byte, zero int) src {
-		rd := &doubles.Reader{Name: "payload", Data: content, C: ch, Faults: true, ZeroReads: zero}
-		return src{data: doubles.Plain{R: rd}, expect: content, payload: rd}
+		rd := &sreader{Name: "payload", Data: content, C: ch, Errs: 2, Zero: zero}
+		return src{data: plainR{rd}, expect: content, payload: rd}
 	}},
 	{"encoding.BinaryMarshaler", supIface, func(_ *choice.Chooser, content []byte, _ int) src {
 		return src{data: bmSrc{cp(content)}, expect: content}
@@ -480,13 +452,13 @@ func runConsume(cs Case, content []byte, ch *choice.Chooser) verdict {
 	if k == nil {
 		return verdict{class: "harness", what: "unknown destination kind " + cs.Kind}
 	}
-	rd := &doubles.Reader{Name: "src", Data: content, C: ch, Faults: true, ZeroReads: cs.Zero}
+	rd := &sreader{Name: "src", Data: content, C: ch, Errs: cs.Errs, Zero: cs.Zero, CloseFaults: true}
 	var reader io.Reader
 	switch cs.Stream {
 	case "closer":
-		reader = &rcloser{rd}
+		reader = rd
 	case "plain":
-		reader = doubles.Plain{R: rd}
+		reader = plainR{rd}
 	case "nil":
 		reader = nil
 	default:
@@ -533,10 +505,10 @@ func runConsume(cs Case, content []byte, ch *choice.Chooser) verdict {
 		}
 		return v
 	}
-	readFault := rd.Failed != nil
+	readFault := rd.Faulted()
 	switch k.sup {
 	case supConcrete, supIface:
-		writeFault := d.w != nil && d.w.Failed != nil
+		writeFault := d.w != nil && d.w.Faulted()
 		if err != nil {
 			if !readFault && !writeFault {
 				v.class, v.what = "unexpected-error", fmt.Sprintf("%s consumer failed on a fault-free stream into supported destination %s (content %s): %v", cs.Codec, k.name, q(content), err)
@@ -622,13 +594,13 @@ func runProduce(cs Case, content []byte, ch *choice.Chooser) verdict {
 	if k == nil {
 		return verdict{class: "harness", what: "unknown source kind " + cs.Kind}
 	}
-	w := &doubles.Writer{Name: "dst", C: ch, Faults: true}
+	w := &swriter{Name: "dst", C: ch, Errs: cs.Errs, CloseFaults: true}
 	var writer io.Writer
 	switch cs.Stream {
 	case "closer":
-		writer = &wcloser{w: w}
+		writer = w
 	case "plain":
-		writer = doubles.PlainWriter{W: w}
+		writer = plainW{w}
 	case "nil":
 		writer = nil
 	default:
@@ -684,8 +656,8 @@ func runProduce(cs Case, content []byte, ch *choice.Chooser) verdict {
 		v.outcome = tag + "nil-writer-error"
 		return v
 	}
-	writeFault := w.Failed != nil
-	readFault := s.payload != nil && s.payload.Failed != nil
+	writeFault := w.Faulted()
+	readFault := s.payload != nil && s.payload.Faulted()
 	switch k.sup {
 	case supConcrete, supIface, supJSON:
 		if err != nil {
